@@ -109,6 +109,8 @@ def case(draw):
         'second_save': draw(st.integers(0, 2)) == 0,
         # the top-level Manifest itself may be stored compressed, and the
         # update may (de)compress it
+        # CLI: `gemato create` run again over the existing tree
+        'cli_cmd': draw(st.sampled_from(['update', 'update', 'create'])),
         'top_fmt': draw(st.sampled_from(['', '', '', 'gz', 'xz'])),
         'watermark': draw(st.sampled_from([None, None, 0, 10 ** 6])),
     }
@@ -223,7 +225,11 @@ def run_case(desc):
         can_sign = desc['home'] == 'full' and desc['keyid'] != 'unknown'
         expect_fpr = fx['B'] if desc['keyid'] == 'B' else fx['A']
         if api == 'cli':
-            argv = ['update', '--hashes', ' '.join(desc['hashes'])]
+            # (`create` always starts a plain "Manifest": with a compressed
+            # top-level Manifest it is a different operation, see C18)
+            argv = [desc.get('cli_cmd', 'update') if not top_fmt
+                    else 'update', '--hashes', ' '.join(desc['hashes'])]
+            classes.append('cli:' + argv[0])
             if desc['sign'] is True:
                 argv.append('-s')
             elif desc['sign'] is False:
@@ -258,7 +264,8 @@ def run_case(desc):
                     m.save_manifests(force=desc['force'])
                 return m
             oc = gem.call(run)
-        what = (f'update via {api}: originally {desc["orig"]}, sign='
+        what = (f'{argv[0] if api == "cli" else "update"}'
+                f' via {api}: originally {desc["orig"]}, sign='
                 f'{desc["sign"]}, key id {desc["keyid"]}, home '
                 f'{desc["home"]}')
         if top_fmt or watermark is not None:
